@@ -1,5 +1,7 @@
 """C16: both real front ends on the same (hw, old, new).
-payload: {"mode": "corpus", "pairs": n_cross, "seed": s, "shard": [k, n], "files": bool}
+payload: {"mode": "corpus", "pairs": n_cross, "seed": s, "shard": [k, n], "all_cross": bool}
+         optional "text_share": fraction of the jobs taken through the TEXT level (see text_case),
+                  "text_workers": fraction of those on which file_patch_worker / file_diff_worker run as well
       or {"mode": "synthetic", "cases": [...]}  (handled by pipeline_runner with file_mode)"""
 import copy
 import os
@@ -11,7 +13,8 @@ import pipeline_runner  # sets connectors (SynthProvider)  # noqa
 from pipeline_runner import diff_json, patch_json, OVERRIDE
 from _common import main, tree_json
 import corpus
-from annet import api
+from annet import api, patching, tabparser
+from annet.annlib.diff import gen_pre_as_diff
 from annet.annlib.netdev.views.hardware import HardwareView
 from annet.vendors import registry_connector
 
@@ -86,9 +89,169 @@ def both(hwm, old, new):
     return res
 
 
-def run(payload):
-    sm = corpus.samples(os.environ["ANNET_VERIF_REPO_ROOT"])
-    k, n = payload["shard"]
+# ---------------------------------------------------------------------------------------------------------
+# TEXT level: both front ends start from the same vendor-style dump text.
+#   device side: tabparser.parse_to_tree(text=..., splitter=registry.match(hw).make_formatter().split), the call
+#                annet.gen._old_new_per_device makes for a running config, then api._diff_and_patch;
+#   file side:   the two texts written to files, api._read_old_new_hw -> api._read_old_new_diff_patch, and (on a
+#                share of the cases) api.file_patch_worker / api.file_diff_worker themselves.
+# The texts are formatter.join(tree) plus noise that a config dump carries and that must not matter: separator
+# lines ("#" for VRP, "!" for IOS-like), VRP5-style sections shifted right after a "#", blank lines, trailing
+# blanks, a common left margin, comment headers.  Cases whose noisy text does not parse back to the original
+# tree on the DEVICE side are skipped and counted.
+
+def _family(fmt):
+    if isinstance(fmt, tabparser.HuaweiFormatter):
+        return "vrp"
+    if isinstance(fmt, tabparser.BlockExitFormatter):
+        return "ios"
+    if isinstance(fmt, tabparser.JuniperFormatter):
+        return "brace"
+    if isinstance(fmt, tabparser.RosFormatter):
+        return "ros"
+    return "plain"
+
+
+STYLES = {
+    # name: separator line, probability of a separator before a section, right shifts allowed for a section that
+    # follows a "#" separator, left margin choices, trailing-blank rate, blank-line rate, indented "!" rate, headers
+    "vrp5": dict(sep="#", sep_rate=1.0, shifts=[1, 1, 1, 2], margins=[0], trail=0.15, blank=0.05, inner=0.0,
+                 headers=["!Software Version V200R005C00SPC500", "!Last configuration was updated at 2020-01-01 00:00:00 UTC"]),
+    "vrp8": dict(sep="#", sep_rate=0.9, shifts=[], margins=[0, 0, 1], trail=0.1, blank=0.05, inner=0.0,
+                 headers=["!Software Version V200R019C10SPC800", "!Last configuration was saved at 2021-05-05 10:00:00 UTC"]),
+    "bang": dict(sep="!", sep_rate=0.8, shifts=[], margins=[0, 0, 0, 1, 2], trail=0.15, blank=0.05, inner=0.12,
+                 headers=["! Command: show running-config", "! Last configuration change at 10:00:00 UTC Mon Jan 1 2024", "!"]),
+    "hash": dict(sep="#", sep_rate=0.6, shifts=[], margins=[0, 0, 2], trail=0.1, blank=0.1, inner=0.0,
+                 headers=["# generated 2024-01-01"]),
+    "blank": dict(sep=None, sep_rate=0.0, shifts=[], margins=[0, 1, 3], trail=0.2, blank=0.2, inner=0.0, headers=[]),
+    # brace / RouterOS texts: lines are not indentation-structured; only whole-line noise
+    "lines": dict(sep=None, sep_rate=0.0, shifts=[], margins=[0, 0, 2], trail=0.0, blank=0.15, inner=0.0,
+                  headers=["## Last commit: 2024-01-01 00:00:00 UTC by root", "# jan/02/2024 10:00:00 by RouterOS 6.49"]),
+}
+FAMILY_STYLES = {
+    "vrp": ["vrp5", "vrp5", "vrp5", "vrp8", "vrp8", "blank"],
+    "ios": ["bang", "bang", "bang", "blank", "hash"],
+    "plain": ["hash", "blank", "bang"],
+    "brace": ["lines"],
+    "ros": ["lines"],
+}
+
+
+def _sections(lines):
+    secs = []
+    for l in lines:
+        if not l.strip():
+            continue
+        if l[0] in " \t" and secs:
+            secs[-1].append(l)
+        else:
+            secs.append([l])
+    return secs
+
+
+def noisy_text(text, style, rng):
+    st = STYLES[style]
+    margin = rng.choice(st["margins"])
+    out = []
+    if st["headers"] and rng.random() < 0.6:
+        out.extend(rng.sample(st["headers"], rng.randint(1, len(st["headers"]))))
+    secs = _sections(text.split("\n")) if style != "lines" else [[l] for l in text.split("\n") if l.strip()]
+    for sec in secs:
+        shift = 0
+        if st["sep"] and rng.random() < st["sep_rate"]:
+            out.append(st["sep"])
+            if st["sep"] == "#" and st["shifts"] and (len(sec) == 1 or rng.random() < 0.35):
+                shift = rng.choice(st["shifts"])
+        for l in sec:
+            line = " " * (margin + shift) + l
+            if rng.random() < st["trail"]:
+                line += rng.choice([" ", "  ", "   "])
+            out.append(line)
+            if l[0] == " " and rng.random() < st["inner"]:
+                out.append(" " * (margin + len(l) - len(l.lstrip(" "))) + "!")
+            if rng.random() < st["blank"]:
+                out.append(rng.choice(["", "", " ", "   "]))
+    if st["sep"] and secs and rng.random() < 0.8:
+        out.append(st["sep"])
+    return "\n".join(out) + ("\n" if rng.random() < 0.7 else "")
+
+
+WORKER_ARGS = dict(indent="  ", add_comments=False, show_rules=False, no_color=True)
+
+
+def _err(e):
+    return "AssertionError" if isinstance(e, AssertionError) else type(e).__name__
+
+
+def text_case(name, hwm, old, new, seed, with_workers):
+    OVERRIDE.pop("rb", None)
+    rng = random.Random(f"{seed}|{name}")
+    hw = HardwareView(hwm, None)
+    fmt = registry_connector.get().match(hw).make_formatter()
+    fam = _family(fmt)
+    style = rng.choice(FAMILY_STYLES[fam])
+    rec = {"name": name, "hw": hwm, "vendor": hw.vendor, "family": fam, "style": style}
+    try:
+        told, tnew = noisy_text(fmt.join(old), style, rng), noisy_text(fmt.join(new), style, rng)
+    except Exception:  # noqa
+        return dict(rec, skip="join-raises")
+    # ---- device side, as annet.gen reads a running config
+    try:
+        old_d = tabparser.parse_to_tree(text=told, splitter=registry_connector.get().match(hw).make_formatter().split)
+        new_d = tabparser.parse_to_tree(text=tnew, splitter=registry_connector.get().match(hw).make_formatter().split)
+    except Exception:  # noqa
+        return dict(rec, skip="device-parse-raises")
+    if old_d != old or new_d != new:
+        return dict(rec, skip="noise-not-neutral-on-device-side")
+    rec.update({"old_text": told, "new_text": tnew, "old": tree_json(old_d), "new": tree_json(new_d)})
+    dev_patch = dev_diff = None
+    try:
+        dev_diff, dev_patch = api._diff_and_patch(SimpleNamespace(hw=hw), old_d, new_d, None, None, False)
+        rec["dev"] = {"diff": diff_json(dev_diff), "patch": patch_json(dev_patch),
+                      "paths": [list(k) for k in fmt.cmd_paths(dev_patch).keys()]}
+    except Exception as e:  # noqa
+        rec["dev"] = {"err": _err(e)}
+    # ---- file side: the same two texts saved to files
+    with tempfile.TemporaryDirectory(prefix="c16t-") as d:
+        op, np_ = os.path.join(d, "old.cfg"), os.path.join(d, "new.cfg")
+        with open(op, "w") as f:
+            f.write(told)
+        with open(np_, "w") as f:
+            f.write(tnew)
+        rec["file_old"] = rec["file_new"] = None
+        try:
+            _, o2, n2, hw2 = api._read_old_new_hw(op, np_, SimpleNamespace(hw=hwm))
+            rec["file_old"], rec["file_new"] = tree_json(o2), tree_json(n2)
+            _, d2, _pre2, p2 = api._read_old_new_diff_patch(o2, n2, hw2, False)
+            fmt2 = registry_connector.get().match(hw2).make_formatter()
+            rec["file"] = {"diff": diff_json(d2), "patch": patch_json(p2), "paths": [list(k) for k in fmt2.cmd_paths(p2).keys()]}
+        except Exception as e:  # noqa
+            rec["file"] = {"err": _err(e)}
+        rec["workers"] = None
+        if with_workers:
+            w = {}
+            args = SimpleNamespace(old=op, new=np_, hw=hwm, **WORKER_ARGS)
+            try:
+                w["dev_patch"] = api._format_patch_blocks(dev_patch, hw, WORKER_ARGS["indent"]) if "err" not in rec["dev"] else "<error>"
+            except Exception as e:  # noqa
+                w["dev_patch"] = "<error>"
+            try:
+                w["dev_diff"] = ("".join(gen_pre_as_diff(patching.make_pre(dev_diff), False, WORKER_ARGS["indent"], True))
+                                 if "err" not in rec["dev"] else "<error>")
+            except Exception as e:  # noqa
+                w["dev_diff"] = "<error>"
+            for key, worker in (("file_patch", api.file_patch_worker), ("file_diff", api.file_diff_worker)):
+                try:
+                    res = list(worker((op, np_), args))
+                    w[key] = "".join(t for (_n, t, _f) in res)
+                    w[key + "_labels"] = [n for (n, _t, _f) in res]
+                except Exception as e:  # noqa
+                    w[key] = "<error>"
+            rec["workers"] = w
+    return rec
+
+
+def jobs_for(payload, sm):
     jobs = [(s["name"], s["hw"], s["old"], s["new"]) for s in sm]
     for s in sm:        # the same pairs on concrete models of the vendor
         for m in MODELS.get(s["hw"], []):
@@ -119,12 +282,33 @@ def run(payload):
             side_b = rng.choice(["old", "new"])
             hwm2 = rng.choice([hwm] + MODELS.get(hwm, []))
             jobs.append((f"{a['name']}.{side_a}~{b['name']}.{side_b}@{hwm2}", hwm2, a[side_a], b[side_b]))
+    return jobs
+
+
+def run(payload):
+    sm = corpus.samples(os.environ["ANNET_VERIF_REPO_ROOT"])
+    k, n = payload["shard"]
+    jobs = jobs_for(payload, sm)
+    share, wshare = payload.get("text_share", 0.0), payload.get("text_workers", 0.0)
     out = []
     for j, (name, hwm, old, new) in enumerate(jobs):
         if j % n != k:
             continue
+        # a share of the jobs goes through the TEXT level (which covers what `both` does: the device side runs on
+        # trees equal to old/new, the file side through real files); the others, and the jobs whose noisy text is
+        # not neutral on the device side, through the trees / the clean joined text
+        skipped = None
+        if random.Random(f"select|{payload['seed']}|{name}").random() < share:
+            r = text_case(name, hwm, old, new, payload["seed"],
+                          random.Random(f"workers|{payload['seed']}|{name}").random() < wshare)
+            if "skip" not in r:
+                out.append(r)
+                continue
+            skipped = r
         r = both(hwm, old, new)
         r.update({"name": name, "hw": hwm, "old": tree_json(old), "new": tree_json(new)})
+        if skipped:
+            r["text_skipped"] = {k_: skipped[k_] for k_ in ("family", "style", "skip")}
         out.append(r)
     return out
 
